@@ -6,12 +6,16 @@
                   write_break    = InstrBreak(iter of the innermost loop)
                   write_continue = InstrContinue(innermost loop)
                   write_iter_stop = InstrIterStop for EVERY enclosing loop, innermost first (before `return`)
-   - compiler/stmt.rs  write_return = write_iter_stop ; InstrReturn*
+   - compiler/stmt.rs  write_return = write_iter_stop ; InstrReturn | InstrReturnConst | (def with a declared return type:)
+                       InstrReturnCheckType  -- the InstrIterStop sequence comes FIRST on all three paths
+                       ([SReturnT ok]: the typed path; ok = the returned value has the declared type)
    - compiler/compr.rs  a comprehension clause = write_for whose body starts with `if not c: continue` for each `if`
                         (see [compr] below: comprehensions are the same instructions as nested for statements)
    - instr_impl.rs  InstrIter: iterate (lock); iter_next(0) = None -> iter_stop, jump to end
                     InstrContinue: iter_next(i) = Some -> jump to begin | None -> iter_stop, jump to end
                     InstrBreak: iter_stop, jump to end ;  InstrIterStop: iter_stop ;  InstrReturn: InstrControl::Return
+                    InstrReturnCheckType: check_return_type(v)? ; InstrControl::Return  (a failed check is an error raised
+                    AFTER the frame's loops have been stopped: signal [RetErr], which a loop passes on untouched)
    - bytecode.rs  run_block: InstrControl::Err(e) => return Err(..)   -- NO iter_stop on this path (faithful, fx = false)
    - values/iter.rs  StarlarkIterator (used by every native consumer): next() = None -> iter_stop ; Drop -> iter_stop
 
@@ -33,6 +37,8 @@ Inductive stmt :=
 | SFail                                     (* fail("...") or any other failing statement *)
 | SFor (a : addr) (body : block)            (* for _ in <a>: body *)
 | SBreak | SContinue | SReturn
+| SReturnT (ok : bool)                      (* `return e` in a def that declares a return type (InstrReturnCheckType);
+                                               ok = e has that type *)
 | SIf (n : nat) (t e : block)               (* if <the element of the innermost loop is the n-th one>: t else: e *)
 | SCall (body : block)                      (* call of a def whose body is [body] (argument: the current element) *)
 | SBuiltin (b : builtin) (early : option nat) (a : addr) (cb : block)
@@ -66,6 +72,7 @@ Inductive instr :=
 | IBreak (a : addr)                  (* InstrBreak: iter_stop(a); jump to end *)
 | IIterStop (a : addr)               (* InstrIterStop *)
 | IReturn                            (* InstrReturn / InstrReturnConst *)
+| IReturnCheck (ok : bool)           (* InstrReturnCheckType *)
 | ICall (body : list instr)
 | IBuiltin (early : option nat) (a : addr) (cb : list instr).
 
@@ -84,6 +91,7 @@ Fixpoint compile_stmt (ls : list addr) (s : stmt) (k : list instr) {struct s} : 
   | SBreak => match ls with a :: _ => IBreak a :: k | [] => IErrStatic :: k end
   | SContinue => match ls with a :: _ => IContinue a :: k | [] => IErrStatic :: k end
   | SReturn => stops ls (IReturn :: k)
+  | SReturnT ok => stops ls (IReturnCheck ok :: k)
   | SIf n t e => IIf n (compile ls t) (compile ls e) :: k
   | SCall body => ICall (compile [] body) :: k
   | SBuiltin b early a cb => IBuiltin early a (if has_callback b then compile [] cb else []) :: k
@@ -95,7 +103,8 @@ with compile (ls : list addr) (b : block) {struct b} : list instr :=
   end.
 
 (* ---------- interpreter ---------- *)
-Inductive sig := Next | Brk | Cont | Ret | Error (e : err) | NoFuel.
+(* RetErr: the return-type check of InstrReturnCheckType failed (all loops of the frame already stopped) *)
+Inductive sig := Next | Brk | Cont | Ret | RetErr | Error (e : err) | NoFuel.
 
 Definition stop_here (early : option nat) (i : nat) : bool :=
   match early with Some n => Nat.eqb i n | None => false end.
@@ -134,9 +143,11 @@ Fixpoint run (fuel : nat) (fx : bool) (idx : nat) (c : list instr) (st : store) 
       | IBreak a => (Brk, unlock st a)                    (* InstrBreak: iter_stop; jump to end *)
       | IIterStop a => run f fx idx k (unlock st a)       (* InstrIterStop: iter_stop *)
       | IReturn => (Ret, st)                              (* InstrControl::Return: nothing else happens *)
+      | IReturnCheck ok => (if ok then Ret else RetErr, st)   (* check_return_type(v)?; InstrControl::Return *)
       | ICall body =>
           match run f fx idx body st with                 (* a new frame, its own run_block *)
           | (Next, st1) | (Ret, st1) => run f fx idx k st1
+          | (RetErr, st1) => (Error TypeMismatch, st1)    (* the callee's error, seen by the caller like any other *)
           | (Error e, st1) => (Error e, st1)
           | (NoFuel, st1) => (NoFuel, st1)
           | (_, st1) => (Error Internal, st1)
@@ -164,6 +175,7 @@ with loop (fuel : nat) (fx : bool) (a : addr) (body : list instr) (i : nat) (st 
       | (Next, st1) | (Cont, st1) => loop f fx a body (S i) st1     (* InstrContinue: iter_next(i+1) *)
       | (Brk, st1) => (Next, st1)                  (* InstrBreak has already called iter_stop *)
       | (Ret, st1) => (Ret, st1)                   (* the InstrIterStop's written before InstrReturn have already run *)
+      | (RetErr, st1) => (RetErr, st1)             (* ... and before InstrReturnCheckType: nothing is active any more *)
       | (Error e, st1) =>                          (* run_block returns Err: faithful = no iter_stop at all *)
           (Error e, if fx then unlock st1 a else st1)
       | (NoFuel, st1) => (NoFuel, st1)
@@ -181,6 +193,7 @@ with bloop (fuel : nat) (fx : bool) (early : option nat) (a : addr) (cb : list i
     else if has_elem st a i then
       match run f fx i cb st with                  (* key.invoke_pos(..)? / func.invoke_pos(..)? *)
       | (Next, st1) | (Ret, st1) => bloop f fx early a cb (S i) st1
+      | (RetErr, st1) => (Error TypeMismatch, unlock st1 a)
       | (Error e, st1) => (Error e, unlock st1 a)  (* `?` leaves the native function: Drop -> iter_stop *)
       | (NoFuel, st1) => (NoFuel, st1)
       | (_, st1) => (Error Internal, unlock st1 a)
@@ -192,4 +205,4 @@ with bloop (fuel : nat) (fx : bool) (early : option nat) (a : addr) (cb : list i
 Definition exec (fuel : nat) (fx : bool) (p : block) (st : store) : sig * store :=
   run fuel fx 0 (compile [] p) st.
 
-Definition is_err (r : sig) : bool := match r with Error _ => true | _ => false end.
+Definition is_err (r : sig) : bool := match r with Error _ | RetErr => true | _ => false end.
